@@ -114,6 +114,17 @@ def generate(rng):
     scn['cuts'] = sorted(set(rng.randint(1, max(1, len(data) - 1)) for _ in range(k))) if len(data) > 1 else []
     scn['how'] = rng.choice(['split_write', 'torn_read', 'maxread'])
     scn['maxread'] = rng.choice([1, 2, 3, 7]) if scn['how'] == 'maxread' else 2000
+    if rng.random() < 0.004:
+        # one very large write (a whole capture file handed over at once) next to small ones: sizes beyond any internal
+        # block size, cut inside a multi-byte character at either end of the large piece
+        unit = rng.choice([u'Preis: 5 \u20ac netto\r\n', u'caf\xe9 \U0001f600 ok\r\n'])
+        ub = unit.encode('utf-8')
+        rep = 66000 // len(ub) + rng.randint(2, 40)
+        first = next(i for i, ch in enumerate(ub) if ch >= 0x80)
+        k = rng.choice([0, rep - 1])
+        scn.update({'transport': 'direct', 'mode': 'bytes', 'tenc': 'utf-8', 'rows': 4, 'cols': 24, 'tokens': [unit], 'rep': rep,
+                    'cuts': [k * len(ub) + first + 1], 'how': 'split_write', 'maxread': 2000})
+        scn.pop('truncated', None)
     return scn
 
 
@@ -156,7 +167,9 @@ def run(scn):
     rows, cols = scn['rows'], scn['cols']
     if rows < 1 or cols < 1:
         raise HarnessError('degenerate screen size')
-    toks = scn['tokens']
+    toks = scn['tokens'] * int(scn.get('rep', 1))
+    if scn.get('rep', 1) > 1 and (len(scn['tokens']) > 4 or scn.get('transport') != 'direct'):
+        raise HarnessError('repeated token lists are for short units fed directly')
     for i, tk in enumerate(toks):
         if not valid_token(tk) and not (scn.get('truncated') and i == len(toks) - 1):
             raise HarnessError('scenario token %r is not a complete unit' % (tk,))
